@@ -4,6 +4,7 @@ import (
 	"fmt"
 
 	"verif/engine/core"
+	"verif/engine/hook"
 	"verif/engine/peg"
 	"verif/engine/rtapi"
 )
@@ -11,7 +12,7 @@ import (
 func init() {
 	register(&Check{
 		ID: "C15", Level: "exploration", QuickSecs: 150, ThoroughSecs: 900,
-		Rule:        "ALL character classes made of 1..K items (quick K=3, thorough K=4) from {a,Z,_,0,é,a-c,X-b,@-Z,0-é,\\pL,\\p{Nd},\\p{Latin},\\],\\p{Lu},U+212A KELVIN SIGN,U+0100-U+0200,!-U+00FF,l-K(U+212A),j-U+0130,!-_,U+00D7-U+00F7,k,i-k} x inverted x ignore-case, eight classes per grammar (one rule each, selected with Entrypoint); inputs: each of the 128 Basic Latin runes, every rune U+0080..U+024F, KELVIN SIGN U+212A, ANGSTROM SIGN U+212B, U+FFFD (valid encoding), the invalid byte 0xFF (AllowInvalidUTF8) and the empty input. For every (class, input): parser generated with -optimize-basic-latin vs parser generated without it (real vs real), both also against the reference class semantics (member iff some element of the class equals the rune, under simple case folding when i; ^ complements; EOF never matches). Non-trivial = the class matches the rune (table entry true) or the class is case-insensitive.",
+		Rule:        "ALL character classes made of 1..K items (quick K=3, thorough K=4) from {a,Z,_,0,é,a-c,X-b,@-Z,0-é,\\pL,\\p{Nd},\\p{Latin},\\],\\p{Lu},U+212A KELVIN SIGN,U+0100-U+0200,!-U+00FF,l-K(U+212A),j-U+0130,!-_,U+00D7-U+00F7,k,i-k} x inverted x ignore-case, plus EVERY Unicode class name the front-end accepts (about 200) alone, inverted and with i; eight classes per grammar (one rule each, selected with Entrypoint); inputs: each of the 128 Basic Latin runes, every rune U+0080..U+024F, KELVIN SIGN U+212A, ANGSTROM SIGN U+212B, U+FFFD (valid encoding), the invalid byte 0xFF (AllowInvalidUTF8) and the empty input. For every (class, input): parser generated with -optimize-basic-latin vs parser generated without it (real vs real), both also against the reference class semantics (member iff some element of the class equals the rune, under simple case folding when i; ^ complements; EOF never matches). Non-trivial = the class matches the rune (table entry true) or the class is case-insensitive.",
 		Assumptions: []string{"E1 loader", "reference class semantics for i = simple case folding of both sides"},
 		Run:         runC15,
 	})
@@ -50,6 +51,17 @@ func runC15(c *ShardCtx) {
 		}
 	}
 	rec(0, nil)
+	// EVERY Unicode class the front-end accepts (hook mode "classes") alone, inverted and with i
+	// (tables whose first entry strides out of Latin-1, tables without Latin-1 members, ...)
+	if r, err := c.W.Srv.Call(&hook.Req{Mode: "classes"}); err == nil {
+		for _, cl := range r.Classes {
+			it := `\p{` + cl + `}`
+			classes = append(classes, peg.Cls(false, false, it), peg.Cls(true, false, it), peg.Cls(false, true, it), peg.Cls(true, true, it, "0"))
+		}
+		c.Res.Counters["unicode_classes_swept"] = int64(len(r.Classes))
+	} else {
+		panic(&core.HarnessError{Msg: err.Error()})
+	}
 	var inputs [][]byte
 	for r := 0; r < 128; r++ {
 		inputs = append(inputs, []byte{byte(r)})
